@@ -34,7 +34,7 @@ import (
 )
 
 type op struct {
-	Kind    string `json:"kind"` // fresh | replay | burst
+	Kind    string `json:"kind"` // fresh | replay | burst | stall (accepted now, handshake completes at its "finish") | finish
 	Seed    uint64 `json:"seed"`
 	KeySeed string `json:"key_seed,omitempty"`
 	PadLen  int    `json:"pad_len,omitempty"`
@@ -162,13 +162,21 @@ func runHistory(w *worker, h history) bool {
 		burst bool
 		nOK   int
 		wires [][]byte
+		now   int64 // time of the replay-filter submission handed to the model (0: StartNs+1000)
 	}
 	var recs []rec
+	// connections that were accepted and sit in Read one byte short of their handshake
+	pending := map[int]*srvh.Pending{}
+	defer func() {
+		for _, p := range pending {
+			p.Finish(nil)
+		}
+	}()
 	for i, o := range h.Ops {
 		rng := vlib.NewRng(o.Seed)
 		var s sub
 		switch {
-		case o.Kind == "fresh" || (o.Kind == "burst" && o.Of < 0):
+		case o.Kind == "fresh" || o.Kind == "stall" || (o.Kind == "burst" && o.Of < 0):
 			ks, _ := hex.DecodeString(o.KeySeed)
 			s.cli = w.ref.Fresh("c")
 			rep := w.ref.CliNew(s.cli, id.NodeID, id.Pub, srvh.ClientTape(rng, ks, o.PadLen), hour+int64(o.Off))
@@ -185,6 +193,15 @@ func runHistory(w *worker, h history) bool {
 			s = subs[o.Of]
 		}
 		subs[i] = s
+		if o.Kind == "stall" {
+			// WrapConn starts now (accept time, session key, newServerHandshake) and blocks in
+			// Read with the last byte of the handshake outstanding
+			n := len(s.blob)
+			st := []srvh.Step{{K: "c", B: s.blob[:n-1]}, {K: "g"}, {K: "c", B: s.blob[n-1:]}}
+			pending[i] = srvh.StartWrap(sf, st, serverTape(o.SrvSeed))
+			time.Sleep(2 * time.Millisecond)
+			continue
+		}
 		key := string(s.blob)
 		exp := "reject"
 		if !submitted[key] && s.off >= -1 && s.off <= 1 {
@@ -193,7 +210,21 @@ func runHistory(w *worker, h history) bool {
 		// a blob that was submitted before but rejected for its hour stays rejected
 		desc := fmt.Sprintf("bridge seed %d, op #%d %s (hour offset %+d, %d bytes, cuts %v, resubmission of #%d)",
 			h.IdSeed, i, o.Kind, s.off, len(s.blob), o.Cuts, o.Of)
-		if o.Kind == "burst" {
+		if o.Kind == "finish" {
+			p := pending[o.Of]
+			if p == nil {
+				violate("probe-build", "correspondence", "finish without a pending connection", h, i, w)
+				return true
+			}
+			delete(pending, o.Of)
+			time.Sleep(2 * time.Millisecond)
+			res, gateNs := p.Finish(vlib.NewRng(o.SrvSeed ^ 0xfade).Bytes(cint("serverMaxPadLength") + 8))
+			if res.Hour0 != hour || res.Hour1 != hour {
+				return false
+			}
+			recs = append(recs, rec{i: i, desc: desc + fmt.Sprintf(" [accepted %.1f ms before its handshake completed]", float64(gateNs-res.StartNs)/1e6),
+				class: res.ErrClass, res: res, blob: s.blob, exp: exp, now: gateNs})
+		} else if o.Kind == "burst" {
 			nOK, written, wires, classes, h0, h1 := burst(sf, s.blob, 16)
 			if h0 != hour || h1 != hour {
 				return false
@@ -283,7 +314,7 @@ func runHistory(w *worker, h history) bool {
 		if got == "reject" && rc.res.Written != 0 {
 			violate("bytes-written-on-reject", "impl-oracle", fmt.Sprintf("%d bytes written although rejected | %s", rc.res.Written, rc.desc), h, rc.i, w)
 		}
-		if got == "accept" && o.Kind == "fresh" {
+		if got == "accept" && (o.Kind == "fresh" || o.Kind == "finish") {
 			if rep := w.ref.CliFeed(subs[rc.i].cli, rc.res.Wire); rep.Class != "ok" {
 				violate("answer-rejected-by-reference-client", "impl-oracle",
 					fmt.Sprintf("the reference client (own hour %+d) does not accept the server's answer: %s (mac = MAC_S not computed with the client's hour) | %s",
@@ -291,7 +322,11 @@ func runHistory(w *worker, h history) bool {
 			}
 		}
 		// ---- C
-		m := w.srv.Acc(fname, rc.res.StartNs, rc.res.TapeUsed, rc.blob, hour, rc.res.StartNs+1000)
+		now := rc.res.StartNs + 1000
+		if rc.now != 0 {
+			now = rc.now
+		}
+		m := w.srv.Acc(fname, rc.res.StartNs, rc.res.TapeUsed, rc.blob, hour, now)
 		r.Validated(1)
 		mc := m.Class
 		if mc == "need" {
@@ -347,7 +382,45 @@ func genHistory(rng *vlib.Rng, n int) history {
 		}
 		return o
 	}
+	// interleaved block: connections that are accepted first (WrapConn running, one byte short of
+	// their handshake), others that connect later and complete, then the early ones complete,
+	// then everything is replayed
+	interleave := func() {
+		var stalls, bs []int
+		for k := rng.Range(1, 2); k > 0; k-- {
+			off := vlib.Pick(rng, []int{-1, 0, 0, 1})
+			if rng.Intn(6) == 0 {
+				off = vlib.Pick(rng, []int{-2, 2})
+			}
+			h.Ops = append(h.Ops, fresh("stall", off))
+			stalls = append(stalls, len(h.Ops)-1)
+		}
+		for k := rng.Range(1, 3); k > 0; k-- {
+			h.Ops = append(h.Ops, fresh("fresh", vlib.Pick(rng, []int{-1, 0, 0, 1})))
+			bs = append(bs, len(h.Ops)-1)
+		}
+		var fins []int
+		for _, st := range stalls {
+			h.Ops = append(h.Ops, op{Kind: "finish", Of: st, PadLen: h.Ops[st].PadLen, Off: h.Ops[st].Off, SrvSeed: rng.U64()})
+			fins = append(fins, len(h.Ops)-1)
+		}
+		for _, b := range append(bs, fins...) {
+			h.Ops = append(h.Ops, op{Kind: "replay", Of: b, SrvSeed: rng.U64()})
+		}
+	}
+	blockAt := -1
+	switch rng.Intn(4) {
+	case 0, 1:
+		blockAt = 0 // on the fresh bridge: every remembered entry is younger than the early connection
+	case 2:
+		blockAt = rng.Range(1, n-1)
+	}
 	for len(h.Ops) < n {
+		if blockAt >= 0 && len(h.Ops) >= blockAt {
+			blockAt = -1
+			interleave()
+			continue
+		}
 		switch x := rng.Intn(100); {
 		case x < 40 || len(h.Ops) == 0:
 			h.Ops = append(h.Ops, fresh("fresh", vlib.Pick(rng, []int{-1, 0, 0, 1})))
@@ -355,11 +428,12 @@ func genHistory(rng *vlib.Rng, n int) history {
 			h.Ops = append(h.Ops, fresh("fresh", vlib.Pick(rng, []int{-3, -2, 2, 3})))
 		case x < 90:
 			of := rng.Intn(len(h.Ops))
-			for h.Ops[of].Kind != "fresh" {
-				of = h.Ops[of].Of
-				if of < 0 {
+			for of >= 0 && h.Ops[of].Kind != "fresh" && h.Ops[of].Kind != "finish" {
+				if h.Ops[of].Kind == "stall" {
+					of = -1
 					break
 				}
+				of = h.Ops[of].Of
 			}
 			if of < 0 {
 				continue
@@ -396,6 +470,7 @@ func main() {
 		"the real server reads the wall clock: offsets are relative to the hour the harness observes before and after every submission; a history that straddles an hour boundary is re-run against a fresh factory",
 		"the 3 h expiry of replay-filter entries is not waited for (carried by C04.at_most_once and the C11 tie)",
 		"concurrent submissions are judged by the S oracle only (exactly one success); the model is fed one accepted submission",
+		"interleaved connections (accepted early, completing later) are fed to the model in the order in which their handshakes complete, with the time of completion as the replay filter's clock reading",
 	}
 	o4h.InstallTape(r.Seed)
 	rng := vlib.NewRng(r.Seed)
